@@ -410,8 +410,11 @@ func init() {
 	cache = make(map[string][][]any)
 }
 
-func ExecReader(data any, selector string) (any, error) {
+// parsedSelectors returns the parsed form of a selector, parsing and caching it on first use.
+// The deferred unlock releases the cache mutex also when parsing panics.
+func parsedSelectors(selector string) ([][]any, error) {
 	mut.Lock()
+	defer mut.Unlock()
 	allSelectors, ok := cache[selector]
 	if !ok {
 		allSelectors = make([][]any, 0)
@@ -419,14 +422,20 @@ func ExecReader(data any, selector string) (any, error) {
 		for _, item := range selectors {
 			selectors, err := ParseSelector(item)
 			if err != nil {
-				mut.Unlock()
 				return nil, err
 			}
 			allSelectors = append(allSelectors, selectors)
 		}
 		cache[selector] = allSelectors
 	}
-	mut.Unlock()
+	return allSelectors, nil
+}
+
+func ExecReader(data any, selector string) (any, error) {
+	allSelectors, err := parsedSelectors(selector)
+	if err != nil {
+		return nil, err
+	}
 	result := data
 	for _, item := range allSelectors {
 		rs, err := ReaderExecutor(result, item)
